@@ -246,4 +246,73 @@ theorem static_no_write_counterexample : ¬ FullStatementStaticNoWrite := by
   revert h2
   decide
 
+/-! ## The gas abstraction is sound: the clauses hold for every gas outcome -/
+
+/-- running out of gas somewhere (or failing to pay a code deposit) never introduces an AUTHCALL or a
+    STAKE-family opcode -/
+theorem plain_of_gasCut {f f' : Frame} (h : GasCut f f') (hp : f.plain = true) : f'.plain = true := by
+  induction h with
+  | refl f => exact hp
+  | oog f => rfl
+  | deposit t => rfl
+  | sstore k v _ ih => exact ih hp
+  | tstore k v _ ih => exact ih hp
+  | log n t _ ih => exact ih hp
+  | call id kind tg v _ _ ihb ihr =>
+    simp only [Frame.plain, Bool.and_eq_true] at hp ⊢
+    exact ⟨ihb hp.1, ihr hp.2⟩
+  | create id two salt v _ _ ihb ihr =>
+    simp only [Frame.plain, Bool.and_eq_true] at hp ⊢
+    exact ⟨ihb hp.1, ihr hp.2⟩
+  | authcall id au n tg v _ _ _ _ => simp [Frame.plain] at hp
+  | stake a _ _ => simp [Frame.plain] at hp
+  | unstake a _ _ => simp [Frame.plain] at hp
+  | unstakeall _ _ => simp [Frame.plain] at hp
+  | stakenum p _ _ => simp [Frame.plain] at hp
+
+/-- Clause 2 for every gas outcome: whichever frames of the tree run out of gas, wherever, the
+    read-only frame leaves the live observation untouched. -/
+theorem static_no_write_any_gas (env : Env) (hrv : RevertRestoresObs env.rv) (body body' : Frame)
+    (hcut : GasCut body body') (hplain : body.plain = true) (depth : Nat) (self : Addr) (w : World)
+    (clogs : List Log) (tr : List Event) (hwf : (obs w).WF) :
+    liveObs (run env depth true self w clogs tr body').world = liveObs w :=
+  static_no_write_partial env hrv body' (plain_of_gasCut hcut hplain) depth self w clogs tr hwf
+
+/-- Clause 1 for every gas outcome: a call frame that fails -- for whatever reason, under whatever
+    allotment of gas to it and its sub-frames -- restores the observation. -/
+theorem failed_call_no_trace_any_gas (env : Env) (hrv : RevertRestoresObs env.rv) (depth : Nat) (ro : Bool)
+    (self : Addr) (kind : CallKind) (target : Addr) (value : Nat) (body body' : Frame) (_hcut : GasCut body body')
+    (w : World) (hfail : (callFrame env depth ro self kind target value body' w).err.isSome) :
+    obs (callFrame env depth ro self kind target value body' w).world = obs w :=
+  failed_call_no_trace env hrv depth ro self kind target value body' w hfail
+
+/-- running out of gas is itself a failure the frame recovers from: cutting a successful body short
+    makes the call fail and the observation is the one at the call -/
+example :
+    let env : Env := { origin := .base 10, rv := restore }
+    let w : World := ({} : World).setCode (.base 20) .hosted
+    let full := Frame.sstore 1 7 (.log 1 5 (.done .stop))
+    let cut := Frame.sstore 1 7 (.done .oog)
+    (callFrame env 0 false (.base 10) .call (.base 20) 0 full w).world.getState (.base 20) 1 = 7
+    ∧ (callFrame env 0 false (.base 10) .call (.base 20) 0 cut w).err = some .outOfGas
+    ∧ (callFrame env 0 false (.base 10) .call (.base 20) 0 cut w).world.getState (.base 20) 1 = 0 := by
+  decide
+
+example : GasCut (.sstore 1 7 (.log 1 5 (.done .stop))) (.sstore 1 7 (.done .oog)) :=
+  .sstore 1 7 (.oog _)
+
+/-- The STAKE family is a second way the full statement fails (of model and code): none of STAKE,
+    UNSTAKE, UNSTAKEALL is flagged `writes` or tests `readOnly`. In a read-only frame running at a
+    registered miner account, `STAKE 1` moves 1 RPG out of the balance into the stake and `UNSTAKE 1`
+    lowers the stake. Replayed on the implementation inside generated frame trees (known findings
+    `static-frame:stakefamily:*`). -/
+theorem static_no_write_counterexample_stake :
+    let env : Env := { origin := .base 10, rv := restore, isMiner := fun a => a == .base 23 }
+    let w : World := { bal := [(.base 23, 2 * oneRPG)], stake := [(.base 23, 400)] }
+    (obs (run env 1 true (.base 23) w [] [] (.stake 1 (.done .stop))).world).bal (.base 23) = oneRPG
+    ∧ (obs (run env 1 true (.base 23) w [] [] (.stake 1 (.done .stop))).world).stake (.base 23) = 401
+    ∧ (obs (run env 1 true (.base 23) w [] [] (.unstake 1 (.done .stop))).world).stake (.base 23) = 399
+    ∧ (obs (run env 1 true (.base 23) w [] [] (.unstakeall (.done .stop))).world).stake (.base 23) = 0 := by
+  decide
+
 end Rangers.Props.C12
